@@ -20,6 +20,16 @@ def run_check(prop_id, tier, seed, repo=None):
         mod = importlib.import_module(f"cxa.props.{prop_id.lower()}")
         index = get_index(repo)
         res = mod.run(index, tier=tier, seed=seed)
+        # anti-vacuity: every rule that decided something on the confirmed tree must still decide something; a rule
+        # whose recogniser matches nothing any more is an analysis error (exit 2), never a silent pass
+        try:
+            confirmed = json.load(open(os.path.join(os.path.dirname(os.path.abspath(__file__)), "confirmed_rules.json"))).get(prop_id, [])
+        except Exception:
+            confirmed = []
+        lost = [r_ for r_ in confirmed if res.rules.get(r_, {}).get("instances", 0) == 0]
+        if lost and not res.findings:
+            raise AnalysisError(f"rule(s) {lost} decided nothing on this tree (confirmed on the pinned tree): "
+                                f"{'; '.join(res.not_in_fragment[:3]) or 'construct not recognised'}")
         code = finish(res, tier, seed, t0)
         if tier == "thorough" and code == 0:
             # thorough = quick + the checker self-test for this property (seeded faults must fire, rewrites stay silent)
